@@ -12,6 +12,7 @@ For every choice tape (`Drv`, i.e. every sequence of answers of the bolero drive
   one new item or snapshot (`run_hooks` two-pass forcing logic).
 -/
 import HvSim.Model.Sim
+import HvSim.Model.Inline
 namespace HvSim
 
 /-- `Split l a b`: `a` and `b` are complementary subsequences of `l` (a sub-multiset choice that keeps
@@ -1722,6 +1723,50 @@ theorem released_plus_remaining_perm [DecidableEq κ] [DecidableEq α] (h : Hook
     rw [aux_msgItems_kv]; simp only [Hook.pending]; rw [← aux_tagK_append, ← aux_tagK_append, ← aux_tagK_append]
     exact aux_tagK_perm (aux_tlKeyedMerge_perm hh)
 
+
+
+/-! ### the in-tick order hooks -/
+
+theorem aux_shuffleFrom_perm [DecidableEq α] : ∀ (fuel src maxDst : Nat) (l : List α) (d : Drv) {l' : List α} {d' : Drv},
+    shuffleFrom fuel src maxDst l d = some (l', d') → l'.Perm l := by
+  intro fuel
+  induction fuel with
+  | zero =>
+    intro src maxDst l d l' d' h
+    simp only [shuffleFrom, Option.some.injEq, Prod.mk.injEq] at h
+    exact h.1 ▸ List.Perm.refl _
+  | succ n ih =>
+    intro src maxDst l d l' d' h
+    unfold shuffleFrom at h
+    split at h
+    · simp at h
+    · exact (ih _ _ _ _ h).trans (aux_swapAt_perm _ _ _)
+
+/-- `StreamOrderHook`: for every tape the observed order is a permutation of the batch
+(nothing lost, nothing twice) -/
+theorem streamOrder_released_is_perm [DecidableEq α] {l l' : List α} {d d' : Drv}
+    (h : streamOrderAuto l d = some (l', d')) : l'.Perm l :=
+  aux_shuffleFrom_perm _ _ _ _ _ h
+
+/-- `MergeOrderedHook`: for every tape the merged batch is an interleaving of the two inputs that keeps
+each input's order (`Split`), and the recorded sources tell the inputs apart -/
+theorem mergeOrdered_is_interleaving : ∀ (l1 l2 : List α) (d : Drv),
+    Split (mergeOrderedAuto l1 l2 d).1 l1 l2 ∧ (mergeOrderedAuto l1 l2 d).2.1.length = l1.length + l2.length := by
+  intro l1 l2 d
+  fun_induction mergeOrderedAuto l1 l2 d with
+  | case1 l2 d => exact ⟨Split.aux_all_right _, by simp⟩
+  | case2 x r1 d => exact ⟨Split.aux_all_left _, by simp⟩
+  | case3 =>
+    rename_i hrec _ ih
+    rw [hrec] at ih
+    exact ⟨.right ih.1, by simp only [List.length_cons] at ih ⊢; omega⟩
+  | case4 =>
+    rename_i ih
+    have hrec := ‹mergeOrderedAuto _ _ _ = (_, _, _)›
+    rw [hrec] at ih
+    exact ⟨.left ih.1, by simp only [List.length_cons] at ih ⊢; omega⟩
+
+example : streamOrderAuto [1, 2, 3] ⟨[1, 0], []⟩ = some ([2, 1, 3], ⟨[], [.u 1 2 1, .u 0 2 1]⟩) := by decide
 
 
 /-! ### F36: the unconditional form of the clause is refuted by the code that exists -/
